@@ -39,7 +39,7 @@ func runC20(c *Ctx) {
 	p := c.P
 	c.Rule("C20-R1", "Removed state only for ErrorCheck and RuleDependencyCheck", 28)
 	c.Rule("C20-R2", "dependency check sees only the filtered (non-removed, error-free) entries", 5)
-	c.Rule("C20-R3", "replacement test before scan; dedup and sort before rendering; emitted only when non-empty", 6)
+	c.Rule("C20-R3", "replacement test before scan; every rule and selector scanned; dedup and sort before rendering; emitted only when non-empty", 9)
 	c.Rule("C20-R4", "every configured check is dispatched with the full entry list; every problem forwarded", 8)
 	c.Rule("C20-R5", "selector-name comparisons honour the __name__ matcher", 2)
 
@@ -94,6 +94,9 @@ func runC20(c *Ctx) {
 		}
 		c.Check(gate, "C20-R1", "parsedRule.isEnabled gates on Meta().States", pie.Decl.Pos(), "state gate present", "the entry state is no longer tested against the check's Meta().States")
 	}
+
+	// removed-state detection relies on kind-aware pairing (shared with C03-R3)
+	c03Pairing(c, "C20-R1")
 
 	// ---- R2 ----
 	chk := c.MustFunc("C20-R2", "internal/checks.RuleDependencyCheck.Check")
@@ -290,6 +293,93 @@ func runC20(c *Ctx) {
 				c.Check(dd, "C20-R3", "Check:dependants de-duplicated", a.Inner.Pos(), "guarded by !found", "dependants are appended without the duplicate test")
 			}
 		}
+	}
+
+	// every filtered entry is scanned: nothing skips an iteration before the usesVector/usesAlert calls
+	if chk != nil {
+		info := chk.Pkg.TypesInfo
+		pm := parentMap(chk.Decl.Body)
+		var scanLoop *ast.RangeStmt
+		var firstScan token.Pos
+		ast.Inspect(chk.Decl.Body, func(n ast.Node) bool {
+			call, ok := n.(*ast.CallExpr)
+			if !ok || !isCallTo(info, call, "internal/checks.RuleDependencyCheck.usesVector", "internal/checks.RuleDependencyCheck.usesAlert") {
+				return true
+			}
+			if firstScan == token.NoPos || call.Pos() < firstScan {
+				firstScan = call.Pos()
+			}
+			for cur := pm[call]; cur != nil; cur = pm[cur] {
+				if rs, ok := cur.(*ast.RangeStmt); ok {
+					scanLoop = rs
+					break
+				}
+			}
+			return true
+		})
+		if scanLoop == nil {
+			c.Undecided("C20-R3", "Check:scan loop", chk.Decl.Pos(), "scan loop not found")
+		} else {
+			bad := ""
+			ast.Inspect(scanLoop.Body, func(n ast.Node) bool {
+				if b, ok := n.(*ast.BranchStmt); ok && b.Pos() < firstScan && b.Tok != token.FALLTHROUGH {
+					bad = c.P.Pos(b.Pos())
+				}
+				if r, ok := n.(*ast.ReturnStmt); ok && r.Pos() < firstScan {
+					bad = c.P.Pos(r.Pos())
+				}
+				return true
+			})
+			c.Check(bad == "", "C20-R3", "Check:every remaining rule is scanned for a dependency", scanLoop.Pos(), "no skip before the scan", "a remaining rule can be skipped at "+bad+" before it is scanned (a dependant is neither counted nor listed)")
+		}
+	}
+	// the per-rule scans look at every selector: no negative result from inside the selector loop
+	for _, fn := range []string{"internal/checks.RuleDependencyCheck.usesVector", "internal/checks.RuleDependencyCheck.usesAlert"} {
+		fi := c.MustFunc("C20-R3", fn)
+		if fi == nil {
+			continue
+		}
+		finfo := fi.Pkg.TypesInfo
+		var loop *ast.RangeStmt
+		ast.Inspect(fi.Decl.Body, func(n ast.Node) bool {
+			if rs, ok := n.(*ast.RangeStmt); ok && loop == nil {
+				if call, ok := rs.X.(*ast.CallExpr); ok && isCallTo(finfo, call, "internal/parser/utils.HasVectorSelector") {
+					loop = rs
+				}
+			}
+			return true
+		})
+		short := fn[strings.LastIndex(fn, ".")+1:]
+		if loop == nil {
+			c.Bad("C20-R3", short+":ranges over every selector of the expression", fi.Decl.Pos(), "no loop over utils.HasVectorSelector(expr.Query)")
+			continue
+		}
+		bad := ""
+		for _, r := range returnsIn(loop.Body.List) {
+			if len(r.Results) == 1 && isNilIdent(finfo, r.Results[0]) {
+				bad = c.P.Pos(r.Pos())
+			}
+		}
+		inspectNoLit(loop.Body, func(n ast.Node) bool {
+			if b, ok := n.(*ast.BranchStmt); ok && b.Tok == token.BREAK {
+				// a break directly in the selector loop (not in an inner loop) stops the search
+				pm := parentMap(loop)
+				for cur := pm[b]; cur != nil; cur = pm[cur] {
+					if cur == ast.Node(loop) {
+						bad = c.P.Pos(b.Pos())
+						break
+					}
+					if _, inner := cur.(*ast.RangeStmt); inner {
+						break
+					}
+					if _, inner := cur.(*ast.ForStmt); inner {
+						break
+					}
+				}
+			}
+			return true
+		})
+		c.Check(bad == "", "C20-R3", short+":search over selectors is exhaustive", loop.Pos(), "only a positive result leaves the loop", "the selector loop gives up at "+bad+" before all selectors were examined (a dependency through a later selector is missed)")
 	}
 
 	// ---- R4 ----
